@@ -12,5 +12,5 @@ func TestMain(m *testing.M) { kit.Main(m, "C19") }
 var reMarbl = regexp.MustCompile(`martian/v3/marbl\.`)
 
 func TestReplay(t *testing.T) {
-	kit.Replay(t, propLogging, propHandler, propReader, propReaderHuge)
+	kit.Replay(t, propLogging, propHandler, propClosed, propReader, propReaderHuge)
 }
